@@ -80,7 +80,41 @@ def setup(ctx):
     ctx.rdflib = rdflib
 
 
+def at_scale_case(ctx, g, rng):
+    """every loader on a map far above any plausible batch size or threshold"""
+    api, S = ctx.api, probe.S
+    C = api.Converter
+    n = rng.choice([300, 1200]) if ctx.tier == "thorough" else 150
+    recs = gen.large_records(rng, n)
+    epm = [{"prefix": r.prefix, "uri_prefix": r.uri_prefix, "prefix_synonyms": list(r.psyn), "uri_prefix_synonyms": list(r.usyn)} for r in recs]
+    o = three_forms(ctx, C.from_extended_prefix_map, epm, "extended_prefix_map")
+    call(C.from_extended_prefix_map, (dict(x) for x in epm))
+    some = rng.sample(recs, k=10)
+    if o[0] == "ret":
+        exercise(o[1], [(p, u) for r in some for p in spec.all_p(r) for u in spec.all_u(r)])
+    pm = {r.prefix: r.uri_prefix for r in recs}
+    o = three_forms(ctx, C.from_prefix_map, pm, "prefix_map")
+    if o[0] == "ret":
+        exercise(o[1], [(r.prefix, r.uri_prefix) for r in some])
+    ppm = {r.prefix: [r.uri_prefix, *r.usyn] for r in recs}
+    o = three_forms(ctx, C.from_priority_prefix_map, ppm, "priority_prefix_map")
+    if o[0] == "ret":
+        exercise(o[1], [(r.prefix, u) for r in some for u in spec.all_u(r)])
+    rpm = {u: r.prefix for r in recs for u in spec.all_u(r)}
+    o = three_forms(ctx, C.from_reverse_prefix_map, rpm, "reverse_prefix_map")
+    if o[0] == "ret":
+        exercise(o[1], [(r.prefix, u) for r in some for u in spec.all_u(r)])
+    o = three_forms(ctx, C.from_jsonld, {"@context": {**pm, "@vocab": "http://v/"}}, "jsonld")
+    if o[0] == "ret":
+        exercise(o[1], [(r.prefix, r.uri_prefix) for r in some])
+    call(api.upgrade_prefix_map, pm)
+    S.counters[f"wl:at-scale:n{n}"] += 1
+    probe.note_key(f"at-scale:n{n}", True)
+
+
 def run_case(ctx, g, rng):
+    if g % 150 == 150 - 1:
+        return at_scale_case(ctx, g, rng)
     api, S = ctx.api, probe.S
     C = api.Converter
     which = g % 6
